@@ -382,7 +382,7 @@ impl Explorer {
                 stats.internal_errors.push(outcome.clone());
             }
             // take the context out of the thread-local so that we can use it while calling the solver
-            let ctx = dag::CTX.with(|c| std::mem::replace(&mut *c.borrow_mut(), Ctx::new()));
+            let ctx = dag::CTX.with(|c| std::mem::replace(&mut **c.borrow_mut(), Ctx::new()));
             if let Some(e) = &ctx.internal_error {
                 stats.internal_errors.push(e.clone());
             }
